@@ -811,6 +811,31 @@ def family_zoo(cuqi, rs):
     return out
 
 
+def generator_clause(ctx, fam, D, N, desc):
+    """the other kind of numpy generator object, `np.random.Generator` (default_rng): where a family accepts it, the
+    draws must be a deterministic function of ITS state, consume it, and leave the global state untouched; a family
+    that cannot use it must refuse (raise), never fall back silently to another stream."""
+    g1, g2, g3 = np.random.default_rng(2024), np.random.default_rng(2024), np.random.default_rng(7)
+    st0 = g1.bit_generator.state
+    a, ea, ua = call_sample(D, N, g1)
+    b, eb, ub = call_sample(D, N, g2)
+    c, ec, uc = call_sample(D, N, g3)
+    ctx.case("generator-object", {**desc, "rng": "np.random.default_rng"}, nontrivial=False)
+    if ea is not None:
+        return                                   # refusal (e.g. Gaussian: Generator has no randn)
+    key = f"rng:{fam}:Generator"
+    d2 = {**desc, "rng": "np.random.default_rng(2024)"}
+    if not (ua and ub and uc):
+        ctx.fail(key, d2, "global numpy random state untouched when a Generator is given", "changed", "the given Generator is silently replaced by the global stream")
+    if eb is not None or not np.array_equal(values(a), values(b)):
+        ctx.fail(key, d2, "identically seeded Generators give identical draws", {"first": values(a).tolist()[:3], "second": (values(b).tolist()[:3] if eb is None else eb)},
+                 "draws are not a function of the given Generator's state")
+    if ec is None and np.array_equal(values(a), values(c)):
+        ctx.fail(key, d2, "differently seeded Generators give different draws", "identical", "the given Generator is not used")
+    if g1.bit_generator.state == st0:
+        ctx.fail(key, d2, "the given Generator is advanced", "state unchanged", "the given Generator is not used")
+
+
 def run_wrap(ctx, cuqi, thorough):
     rs = np.random.RandomState(ctx.seed + 503)
     zoo = family_zoo(cuqi, rs)
@@ -854,6 +879,7 @@ def run_wrap(ctx, cuqi, thorough):
             ctx.fail(f"rng:{fam}:deterministic", desc, "same generator state -> same draws", "draws differ")
         if v1.shape == v3.shape and np.array_equal(v1, v3):
             ctx.fail(f"rng:{fam}:uses-rng", desc, "different generator state -> different draws", "identical draws (the given generator is not used)")
+        generator_clause(ctx, fam, D, N, desc)
     # global-stream path: rng=None must consume the global generator (sanity, restores the state)
     st = np.random.get_state()
     try:
@@ -2577,7 +2603,6 @@ _run_part5 = run
 
 
 def run(ctx):   # noqa: F811
-    del RETAINED[:]
     _run_part5(ctx)
     cuqi = import_cuqi()
     run_generic(ctx, cuqi, ctx.tier == "thorough")
@@ -2727,7 +2752,11 @@ def run_blocks(ctx, cuqi, thorough):
             if e_ is not None:
                 ctx.fail(key, desc, "a sample", e_, "sampling fails for this number of draws"); continue
             X = values(s_); X = np.log(X) if logspace else X
-            Z = np.vstack(zs)
+            Z = np.vstack(zs) if zs else np.zeros((0, N))
+            if Z.shape != (B.shape[1], N):
+                # another generator path than the one read off (recorded-law checks elsewhere decide about it)
+                ctx.note(f"blocks: generator calls of shape {[z.shape for z in zs]} at {desc}; affine prediction not applicable")
+                continue
             pred = off[:, None] + B @ Z
             if X.shape != pred.shape or not np.allclose(X, pred, rtol=tol, atol=tol * max(1.0, float(np.abs(pred).max()))):
                 badc = [] if X.shape != pred.shape else [int(j) for j in np.where(np.abs(X - pred).max(axis=0) > tol * max(1.0, float(np.abs(pred).max())))[0][:8]]
@@ -2871,16 +2900,179 @@ def run_units(ctx, cuqi, thorough):
                 ctx.fail("units:Lognormal", desc, "log-draw = mean + sqrt(cov) xi", {"offset": off.tolist(), "B": B.tolist()}, "location or spread lost at this magnitude")
 
 
+# ============================================================================= fixed corpus (seed-independent, runs first)
+def run_corpus(ctx, cuqi):
+    """One minimal configuration of every input class that has ever exposed a property-breaking change; independent of
+    VERIF_SEED and of the case counts of the random streams."""
+    import scipy.sparse as sp
+    from cuqi.distribution import (Gaussian, GMRF, Lognormal, Normal, Gamma, Laplace, Uniform, Cauchy, Beta, InverseGamma,
+                                   UserDefinedDistribution)
+    from cuqi.array import CUQIarray
+    from cuqi.geometry import Continuous2D
+
+    def readoff(D, rows, logspace=False):
+        s_, e_, _ = call_sample(D, rows + 1, Script(lambda m, shp, k: np.hstack([np.zeros((rows, 1)), np.eye(rows)]) if shp == (rows, rows + 1) else None))
+        if e_ is not None:
+            return None
+        S = values(s_)
+        if logspace:
+            if not np.all(S > 0):
+                return None
+            S = np.log(S)
+        return S[:, 0].copy(), S[:, 1:] - S[:, :1]
+
+    def affine_case(key, desc, D, rows, **kw):
+        ctx.case("corpus", desc)
+        ro = readoff(D, rows, logspace=kw.pop("logspace", False))
+        if ro is None:
+            ctx.fail(key, desc, "draws through the Gaussian path", "sampling raises / non-positive", "corpus"); return
+        affine_oracle(kw.pop("density", D), ro[0], ro[1], key, desc, ctx, **kw)
+
+    with quiet():
+        # 1. every family, non-unit scale parameters: recorded generator law vs own density (dim 1 and vectors)
+        law_objs = [("Lognormal:scalar", Lognormal(1.0, 4.0)), ("Lognormal:scalar", Lognormal(-1.0, 0.25)), ("Lognormal:vector", Lognormal(np.array([0.0, 1.0]), np.array([0.25, 4.0]))),
+                    ("iid:normal:law", Normal(1.0, 0.5)), ("iid:normal:law", Normal(np.array([0.0, 1.0]), np.array([0.25, 4.0]))), ("iid:gamma:law", Gamma(3.0, 4.0)),
+                    ("iid:gamma:law", Gamma(np.array([2.0, 3.0]), np.array([0.25, 4.0]))), ("iid:laplace:law", Laplace(1.0, 0.25)), ("iid:uniform:law", Uniform(-1.0, 3.0)),
+                    ("iid:cauchy:law", Cauchy(1.0, 0.25)), ("iid:beta:law", Beta(2.0, 3.0)), ("iid:invgamma:law", InverseGamma(3.0, 1.0, 0.5)),
+                    ("Gaussian:cov:diagonal:law", Gaussian(np.array([1.0, -1.0]), cov=np.array([0.25, 4.0]))), ("Gaussian:cov:diagonal:law", Gaussian(1.0, 4.0))]
+    for key, D in law_objs:
+        desc = {"corpus": key, "object": repr(D)[:70]}
+        ctx.case("corpus", desc)
+        with quiet():
+            d_ = int(D.dim)
+        law_oracle(ctx, D, key, desc, K=7 if d_ > 1 else 9)
+    with quiet():
+        # 2. affine families: triangular / full / sparse (all forms), GMRF, Lognormal with matrix covariance
+        L_ = np.array([[2.0, 0.0, 0.0], [1.0, 4.0, 0.0], [-1.0, 1.0, 0.5]])
+        F_ = np.array([[4.0, 1.0, 0.0], [-1.0, 3.0, 1.0], [0.5, 0.0, 2.0]])
+        aff = [("Gaussian:sqrtprec:lower:dense-in", Gaussian(np.array([1.0, 2.0, 3.0]), sqrtprec=L_), 3, {}),
+               ("Gaussian:sqrtprec:full:dense-in", Gaussian(np.array([1.0, 2.0, 3.0]), sqrtprec=F_), 3, {}),
+               ("Gaussian:sqrtprec:full:dense-in", Gaussian(np.array([1.0, 2.0, 3.0]), sqrtprec=np.asfortranarray(F_)), 3, {}),
+               ("Gaussian:sqrtprec:upperbi:sparse-dia", Gaussian(np.zeros(4), sqrtprec=sp.diags([[1.0, 2.0, 4.0, 0.5], [1.0, -1.0, 1.0]], [0, 1])), 4, {}),
+               ("Gaussian:sqrtcov:full:dense-in", Gaussian(np.zeros(3), sqrtcov=F_), 3, {}),
+               ("Gaussian:cov:full:dense-in", Gaussian(np.zeros(3), cov=F_ @ F_.T), 3, {}),
+               ("Gaussian:prec:full:sparse-csr", Gaussian(np.zeros(3), prec=sp.csr_matrix(F_ @ F_.T)), 3, {}),
+               ("typed:Gaussian:sqrtprec:lower:int64:mean-int64", Gaussian(np.array([1, 2]), sqrtprec=np.array([[1, 0], [1, 2]])), 2, {}),
+               ("scale:Gaussian:sqrtprec:upper", Gaussian(np.array([3e-11, -2e-11]), sqrtprec=1e12 * np.array([[1.0, 1.0], [0.0, 2.0]])), 2, {"h": 1e-12, "tol": 1e-6}),
+               ("scale:Gaussian:sqrtprec:stored-upper-entries-below-1e-8", Gaussian(np.zeros(2), sqrtprec=1e-9 * np.array([[1.0, 1.0], [0.0, 1.0]])), 2, {"h": 1e9, "tol": 1e-6}),
+               ("GMRF:zero:1D:order1", GMRF(np.arange(5.0), 4.0, bc_type="zero"), 5, {}),
+               ("GMRF:zero:1D:order2", GMRF(np.arange(5.0), 0.25, bc_type="zero", order=2), 5, {})]
+        Ln = Lognormal(np.array([0.0, 1.0]), np.array([[1.0, 0.5], [0.5, 2.0]]))
+    for key, D, rows, kw in aff:
+        affine_case(key, {"corpus": key}, D, rows, **dict(kw))
+    affine_case("Lognormal:full", {"corpus": "Lognormal:full"}, Ln, 2, logspace=True, density=_LogVar(Ln), tol=1e-6)
+    with quiet():
+        Gn = GMRF(np.arange(5.0), 4.0, bc_type="neumann")
+    ro = readoff(Gn, int(Gn._diff_op.shape[0]))
+    ctx.case("corpus", {"corpus": "GMRF:neumann:1D:order1"})
+    if ro is not None:
+        affine_oracle(Gn, ro[0], ro[1], "GMRF:neumann:1D:order1", {"corpus": "GMRF:neumann"}, ctx, singular=True, tol=1e-6)
+    # 3. wrapping / geometry / generator handling
+    with quiet():
+        Gm = Gaussian(CUQIarray(np.arange(4.0)), 1.0, geometry=Continuous2D((2, 2)))
+        objs = [("gaussian", Gm), ("gmrfZero", GMRF(CUQIarray(np.arange(4.0)), 1.0, geometry=Continuous2D((2, 2)))), ("normal", Normal(np.array([0.0, 1.0]), 2.0)),
+                ("gamma", Gamma(2.0, 4.0)), ("lognormal", Lognormal(np.zeros(2), 4.0))]
+    for fam, D in objs:
+        for N in (1, 3):
+            desc = {"corpus": "wrap/rng", "family": fam, "N": N}
+            ctx.case("corpus", desc)
+            before = global_state_fingerprint()
+            with quiet():
+                a = D.sample(N, np.random.RandomState(5)); b = D.sample(N, rng=np.random.RandomState(5))
+            if before != global_state_fingerprint() or not np.array_equal(values(a), values(b)):
+                ctx.fail(f"positional-rng:{fam}", desc, "sample(N, gen) == sample(N, rng=gen), global state untouched", "differs", "generator passed positionally is not used")
+            for d_, g_ in wrap_oracle(cuqi, D, N, a):
+                ctx.fail(f"wrap:{fam}:{'N1' if N == 1 else 'N>1'}", desc, d_, g_, "wrapping")
+    with quiet():
+        gens = [("gmrfZero", GMRF(np.zeros(4), 4.0, bc_type="zero")), ("gmrfNeumann", GMRF(np.zeros(4), 4.0, bc_type="neumann")), ("gmrfPeriodic", GMRF(np.zeros(4), 4.0, bc_type="periodic")),
+                ("normal", Normal(0.0, 2.0)), ("gamma", Gamma(2.0, 4.0)), ("laplace", Laplace(0.0, 2.0)), ("uniform", Uniform(0.0, 2.0)), ("beta", Beta(2.0, 3.0)),
+                ("cauchy", Cauchy(0.0, 2.0)), ("invgamma", InverseGamma(3.0, 0.0, 2.0)), ("gaussian", Gaussian(np.zeros(2), 4.0)), ("lognormal", Lognormal(np.zeros(2), 4.0))]
+    for fam, D in gens:
+        for N in (1, 3):
+            generator_clause(ctx, fam, D, N, {"corpus": "generator object", "family": fam, "N": N})
+    with quiet():
+        Dc = Gaussian(lambda z: z * np.ones(2), 1.0, geometry=2)
+    s_, e_, _ = call_sample(Dc, 1, np.random.RandomState(0))
+    ctx.case("corpus", {"corpus": "conditional"})
+    if not (e_ is not None and e_.startswith("ValueError")):
+        ctx.fail("cond:gaussian:none", {"corpus": "conditional"}, "refusal", e_ or "a sample", "conditional distribution samples")
+    # 4. histories on one object
+    with quiet():
+        Gh = Gaussian(np.zeros(80), cov=4.0)
+    call_sample(Gh, 2, np.random.RandomState(1))
+    with quiet():
+        Gh.cov = np.full(80, 0.25); Gf = Gaussian(np.zeros(80), cov=np.full(80, 0.25))
+    r1 = readoff(Gh, 80); r2 = readoff(Gf, 80)
+    ctx.case("corpus", {"corpus": "history sparse cov"})
+    if r1 is None or r2 is None or not np.allclose(r1[1], r2[1]):
+        ctx.fail("history:Gaussian:cov:scalar->vector", {"corpus": "dim 80, cov 4 -> 0.25 after a first draw"}, "draws of the current covariance (as a fresh object)", "differ", "stale state after re-assignment")
+    with quiet():
+        Gt = Gaussian(np.zeros(3), sqrtprec=L_.copy())
+    call_sample(Gt, 2, np.random.RandomState(1))
+    with quiet():
+        Gt.sqrtprec = F_.copy(); Gtf = Gaussian(np.zeros(3), sqrtprec=F_.copy())
+    r1 = readoff(Gt, 3); r2 = readoff(Gtf, 3)
+    ctx.case("corpus", {"corpus": "history lower -> full"})
+    if r1 is None or r2 is None or not np.allclose(r1[1], r2[1]):
+        ctx.fail("history:Gaussian:sqrtprec:lower->full", {"corpus": "lower -> full after a first draw"}, "draws of the current sqrtprec (as a fresh object)", "differ", "stale state after re-assignment")
+    with quiet():
+        Gp = GMRF(np.zeros(4), 16.0, bc_type="zero")
+    call_sample(Gp, 2, np.random.RandomState(1))
+    with quiet():
+        Gp.prec = np.array([1.0]); Gpf = GMRF(np.zeros(4), 1.0, bc_type="zero")
+    r1 = readoff(Gp, 4); r2 = readoff(Gpf, 4)
+    ctx.case("corpus", {"corpus": "setter form"})
+    if r1 is None or r2 is None or not np.allclose(r1[1], r2[1]):
+        ctx.fail("setter:GMRF:prec:array1", {"corpus": "G.prec = np.array([1.0]) after a first draw with prec 16"}, "draws of the current precision", "differ", "stale state after re-assignment")
+    # 5. sample -> evaluate -> sample on an F-ordered full sqrtprec
+    with quiet():
+        Go = Gaussian(np.zeros(3), sqrtprec=np.asfortranarray(F_))
+    lp0 = logpdf1(Go, np.ones(3)); ra = readoff(Go, 3); lp1 = logpdf1(Go, np.ones(3)); rb = readoff(Go, 3)
+    ctx.case("corpus", {"corpus": "layout F"})
+    if ra is None or rb is None or lp0 != lp1 or not np.array_equal(ra[1], rb[1]):
+        ctx.fail("layout:Gaussian:sqrtprec:full:F", {"corpus": "F-ordered full sqrtprec: logpdf, sample, logpdf, sample"}, "object unchanged by sampling", {"logpdf": [lp0, lp1]}, "sampling modifies the object")
+    # 6. many draws (block sizes) and user-defined buffers
+    with quiet():
+        Gz = GMRF(np.arange(4.0), 4.0, bc_type="zero")
+    ro = readoff(Gz, 4)
+    zs = []
+    s_, e_, _ = call_sample(Gz, 300, Script(lambda m, shp, k: zs.append((2 * np.random.RandomState(3).randint(-12, 12, size=shp) + 1) / 8.0) or zs[-1]))
+    ctx.case("corpus", {"corpus": "N=300"})
+    if ro is None or e_ is not None or not np.allclose(values(s_), ro[0][:, None] + ro[1] @ zs[0], rtol=1e-9, atol=1e-9):
+        ctx.fail("blocks:GMRF:zero:order1", {"corpus": "GMRF zero, N = 300"}, "every column is the affine image of its own normal column", "differs", "columns of a large request not drawn")
+    buf = np.zeros(2); cnt = {"k": 0}
+
+    def sf():
+        cnt["k"] += 1; buf[:] = [cnt["k"], -cnt["k"]]; return buf
+    with quiet():
+        U = UserDefinedDistribution(dim=2, logpdf_func=lambda x: 0.0, sample_func=sf)
+    s_, e_, _ = call_sample(U, 3, None)
+    ctx.case("corpus", {"corpus": "user buffer"})
+    if e_ is not None or not np.array_equal(values(s_), np.array([[1.0, 2.0, 3.0], [-1.0, -2.0, -3.0]])):
+        ctx.fail("custom:buffer:N>1", {"corpus": "sample_func re-using one buffer, N = 3"}, "column i = i-th draw", None if e_ else values(s_).tolist(), "draws alias the buffer")
+
+
 _run_part6 = run
 
 
+def guarded(ctx, name, fn, *a):
+    import traceback
+    try:
+        fn(*a)
+    except Exception as e:  # noqa
+        tb = traceback.format_exc()[-900:]
+        ctx.disagree(f"harness:{name}", {"stream": name}, "stream completes", tb, "the implementation behaves in a way the harness stream cannot process (treated as a broken tie)")
+
+
 def run(ctx):   # noqa: F811
-    _run_part6(ctx)
     cuqi = import_cuqi()
     th = ctx.tier == "thorough"
-    run_custom(ctx, cuqi, th)
-    run_blocks(ctx, cuqi, th)
-    run_units(ctx, cuqi, th)
+    del RETAINED[:]
+    guarded(ctx, "corpus", run_corpus, ctx, cuqi)          # fixed, seed-independent corpus: runs first on every seed
+    _run_part6(ctx)
+    guarded(ctx, "custom", run_custom, ctx, cuqi, th)
+    guarded(ctx, "blocks", run_blocks, ctx, cuqi, th)
+    guarded(ctx, "units", run_units, ctx, cuqi, th)
     # G8: every sample object returned during the whole run still holds the numbers it held when it was returned
     bad = 0
     for (obj, copy, what) in RETAINED:
